@@ -549,6 +549,12 @@ class Ev:
         if is_transparent(path, f.get("trait"), f.get("trait_method")) and args:
             # derived Clone on local types etc. are still "the same value"
             return args[0]
+        # x.unwrap_or_else(|e| panic!(..)): the closure never returns, so the value is the payload of x (like expect)
+        if len(args) == 2 and strip_generics(path) in ("core::option::Option::unwrap_or_else", "core::result::Result::unwrap_or_else") \
+                and isinstance(args[1], tuple) and args[1] and args[1][0] == "closure":
+            cf = self.prog.fns.get(args[1][1])
+            if cf is not None and 0 in cf.diverging():
+                return args[0]
         # x.map(|v| f(v)) on Option/Result: the payload is the closure body applied to the payload of x (wrapper and payload are one term here)
         if len(args) == 2 and strip_generics(path) in ("core::option::Option::map", "core::result::Result::map") and isinstance(args[1], tuple) and args[1] and args[1][0] == "closure":
             r = self.apply_closure(args[1], [args[0]])
